@@ -20,6 +20,7 @@ import (
 
 	"github.com/benbjohnson/litestream"
 	"github.com/benbjohnson/litestream/file"
+	"github.com/pierrec/lz4/v4"
 	"github.com/superfly/ltx"
 	_ "modernc.org/sqlite"
 	. "verifharness/hx"
@@ -291,6 +292,137 @@ func (e *childEnv) follow(rounds int) {
 	e.ackf("txid", e.lastRemote, "-", litestream.TXIDPath(out))
 }
 
+// followOnMain runs Restore(Follow) on the calling (main, OS-thread-locked)
+// goroutine, so that its system calls are deterministic kill points, and stops
+// it once output and sidecar exist and the sidecar reached target. Used for
+// the initial follow restore and for restarting a follower after a kill.
+func (e *childEnv) followOnMain(target ltx.TXID, limit time.Duration) error {
+	out := e.outPath()
+	fc := file.NewReplicaClient(filepath.Join(e.dir, replicaName))
+	fr := litestream.NewReplicaWithClient(nil, fc)
+	ctx, cancel := context.WithCancel(e.ctx)
+	defer cancel()
+	timedOut := make(chan struct{})
+	go func() {
+		deadline := time.Now().Add(limit)
+		for time.Now().Before(deadline) {
+			if v, err := litestream.ReadTXIDFile(out); err == nil && v >= target && v != 0 {
+				if _, err := os.Stat(out); err == nil {
+					cancel()
+					return
+				}
+			}
+			select {
+			case <-ctx.Done():
+				return
+			case <-time.After(3 * time.Millisecond):
+			}
+		}
+		close(timedOut)
+		cancel()
+	}()
+	opt := litestream.NewRestoreOptions()
+	opt.OutputPath = out
+	opt.Follow = true
+	opt.FollowInterval = 5 * time.Millisecond
+	if err := fr.Restore(ctx, opt); err != nil {
+		return err
+	}
+	select {
+	case <-timedOut:
+		v, _ := litestream.ReadTXIDFile(out)
+		return fmt.Errorf("follower did not reach TXID %d within %s (sidecar %d)", target, limit, v)
+	default:
+	}
+	return nil
+}
+
+func (e *childEnv) followStart() {
+	must(e.followOnMain(e.lastRemote, 20*time.Second), "initial follow restore")
+	out := e.outPath()
+	e.ackf("fout", e.lastRemote, "-", out)
+	e.ackf("txid", e.lastRemote, "-", litestream.TXIDPath(out))
+}
+
+// ---- legacy v0.3.x layout --------------------------------------------------------
+
+func writeLZ4File(path string, data []byte) error {
+	if err := os.MkdirAll(filepath.Dir(path), 0o755); err != nil {
+		return err
+	}
+	f, err := os.Create(path)
+	if err != nil {
+		return err
+	}
+	zw := lz4.NewWriter(f)
+	if _, err := zw.Write(data); err != nil {
+		return err
+	}
+	if err := zw.Close(); err != nil {
+		return err
+	}
+	return f.Close()
+}
+
+const v3Gen = "0123456789abcdef"
+
+// restoreV3: builds two v0.3.x replicas from the application database -- one
+// generation with a snapshot only, one with a snapshot and WAL segments (the
+// real -wal file cut at a frame boundary) -- and restores each through
+// Replica.Restore (which selects RestoreV3: no LTX files present).
+func (e *childEnv) restoreV3(rows int) {
+	e.write(rows, 200)
+	_, err := e.app.Exec(`PRAGMA wal_checkpoint(TRUNCATE)`)
+	must(err, "checkpoint")
+	snap, err := os.ReadFile(e.dbPath())
+	must(err, "read db")
+	d0 := e.digest()
+	e.write(rows, 300)
+	e.update(1)
+	wal, err := os.ReadFile(e.dbPath() + "-wal")
+	must(err, "read wal")
+	d1 := e.digest()
+	ps := int(snap[16])<<8 | int(snap[17])
+	if ps == 1 {
+		ps = 65536
+	}
+	nframes := (len(wal) - 32) / (24 + ps)
+	if nframes < 1 {
+		must(fmt.Errorf("no wal frames"), "restorev3")
+	}
+	wal = wal[:32+nframes*(24+ps)]
+	cut := 32 + (nframes/2)*(24+ps)
+	rootS := filepath.Join(e.dir, "replica3s")
+	rootW := filepath.Join(e.dir, "replica3w")
+	gdir := func(root string) string { return filepath.Join(root, "generations", v3Gen) }
+	must(writeLZ4File(filepath.Join(gdir(rootS), "snapshots", "00000000.snapshot.lz4"), snap), "write snapshot")
+	must(writeLZ4File(filepath.Join(gdir(rootW), "snapshots", "00000000.snapshot.lz4"), snap), "write snapshot")
+	must(writeLZ4File(filepath.Join(gdir(rootW), "wal", fmt.Sprintf("%08x_%08x.wal.lz4", 0, 0)), wal[:cut]), "write wal")
+	if cut < len(wal) {
+		must(writeLZ4File(filepath.Join(gdir(rootW), "wal", fmt.Sprintf("%08x_%08x.wal.lz4", 0, cut)), wal[cut:]), "write wal")
+	}
+	e.note("digest " + d0)
+	e.note("digest " + d1)
+	e.note("expect " + filepath.Join(restoreDir, "v3s.db") + " " + d0)
+	e.note("expect " + filepath.Join(restoreDir, "v3w.db") + " " + d1)
+	e.note("v3ready")
+	e.restoreV3One(rootS, "v3s.db")
+	e.restoreV3One(rootW, "v3w.db")
+}
+
+func (e *childEnv) restoreV3One(root, name string) {
+	out := filepath.Join(e.dir, restoreDir, name)
+	if _, err := os.Stat(out); err == nil {
+		e.note("exists " + name)
+		return
+	}
+	r := litestream.NewReplicaWithClient(nil, file.NewReplicaClient(root))
+	opt := litestream.NewRestoreOptions()
+	opt.OutputPath = out
+	must(r.Restore(e.ctx, opt), "Restore (v0.3.x) "+name)
+	e.ackf("out", 0, "-", out)
+}
+
 func (e *childEnv) sidecar(txid ltx.TXID) {
 	out := e.outPath()
 	must(os.MkdirAll(filepath.Dir(out), 0o755), "mkdir restore")
@@ -382,6 +514,25 @@ func runChild(script, dir string, seed int64, prm []int) {
 		e.closeDB()
 		return
 	}
+	if script == "refollow" {
+		// restart of a follower after a kill: resume (or start afresh) without repair
+		must(e.followOnMain(ltx.TXID(p(0, 1)), 20*time.Second), "follower restart")
+		e.note("refollowed")
+		return
+	}
+	if script == "resumev3" {
+		// restart of a killed v0.3.x restore: run it again where the output is missing
+		e.restoreV3One(filepath.Join(e.dir, "replica3s"), "v3s.db")
+		e.restoreV3One(filepath.Join(e.dir, "replica3w"), "v3w.db")
+		e.note("resumedv3")
+		return
+	}
+	if script == "restorev3" {
+		e.openApp()
+		e.restoreV3(2 + p(1, 2))
+		e.note("done")
+		return
+	}
 	if script == "sidecar" {
 		for i := 0; i < p(0, 3); i++ {
 			e.sidecar(ltx.TXID(i + 1))
@@ -453,7 +604,13 @@ func runChild(script, dir string, seed int64, prm []int) {
 	case "follow":
 		round()
 		e.upload()
+		e.followStart()
 		e.follow(rounds)
+	case "followstart":
+		// short script: the initial follow restore (sidecar, output) on the main thread
+		round()
+		e.upload()
+		e.followStart()
 	case "baseline":
 		for i := 0; i < rounds; i++ {
 			round()
